@@ -30,14 +30,41 @@ def op_aggs(f, op_path, variant):
     return out
 
 
-def switch_rule(fx, scope, op_path, jump_suffix="::emit_jump", patch_suffix="::patch_jump"):
+def emitters(fx, scope, op_path, variant):
+    """local functions that build Op::<variant> themselves (helpers one call away)"""
+    # a function that takes a piece of the AST is a compiler of that construct, not an emission helper: `compile_expression` builds
+    # every opcode there is
+    def takes_ast(g):
+        return any("ast::" in fx.tys(t) for t in g.sig[:-1])
+    return {p for p, g in fx.fns.items() if not g.derived and not g.closure and scope(g) and not takes_ast(g) and op_aggs(g, op_path, variant)}
+
+
+def op_sites(fx, f, scope, op_path, variant, helpers):
+    """blocks of `f` that build Op::<variant> or call a helper that does"""
+    out = list(op_aggs(f, op_path, variant))
+    for bi, t in f.calls():
+        if t[1].get("local") and t[1].get("d") in helpers and t[1].get("d") != f.path:
+            out.append((bi, t[6]))
+    return out
+
+
+def reads_adt(f, adt_suffix):
+    for bi2, kind, place, sp in M.all_places(f):
+        for (adt, var, name) in F.place_fields(place):
+            if str(adt).endswith(adt_suffix):
+                return True
+    return False
+
+
+def switch_rule(fx, scope, op_path, jump_suffix="::emit_jump", patch_suffix="::patch_jump", case_adt=None):
     """[(fn, header, span, bad_jump_spans)] one per loop that emits case tests"""
     out = []
+    helpers = emitters(fx, scope, op_path, "StrictEq")
     for p, f in sorted(fx.fns.items()):
         if f.derived or f.closure or not scope(f):
             continue
-        tests = op_aggs(f, op_path, "StrictEq")
-        if not tests:
+        tests = op_sites(fx, f, scope, op_path, "StrictEq", helpers)
+        if not tests or (case_adt and not reads_adt(f, case_adt)):
             continue
         for header, body in L.natural_loops(f):
             if not any(b in body for b, _ in tests):
@@ -53,6 +80,7 @@ def switch_rule(fx, scope, op_path, jump_suffix="::emit_jump", patch_suffix="::p
 def perit_rule(fx, scope, op_path, marker="::set_loop_var_redirects", body_suffix="::compile_statement_impl", back_suffix="::emit_jump_to"):
     """[(fn, ok, span)] for every compiler of a loop with per-iteration bindings (recognised by the marker call)"""
     out = []
+    getvar_helpers = emitters(fx, scope, op_path, "GetVar")
     for p, f in sorted(fx.fns.items()):
         if f.derived or f.closure or not scope(f):
             continue
@@ -62,10 +90,11 @@ def perit_rule(fx, scope, op_path, marker="::set_loop_var_redirects", body_suffi
         bodies = [(bi, t) for bi, t in calls if (t[1].get("d") or "").endswith(body_suffix)]
         backs = [bi for bi, t in calls if (t[1].get("d") or "").endswith(back_suffix)]
         gets = {b for b, _ in op_aggs(f, op_path, "GetVar")}
+        helper_calls = {b for b, _ in op_sites(fx, f, scope, op_path, "GetVar", getvar_helpers)} - gets
         # a refresh is a loop over the registers that emits GetVar: its header is the waypoint (the loop may run zero times)
-        way = set()
+        way = set(helper_calls)      # a helper that emits the refreshing GetVars (it may loop inside)
         for header, body in L.natural_loops(f):
-            if gets & body:
+            if (gets | helper_calls) & body:
                 way.add(header)
         if not bodies or not backs:
             out.append((f, False, f.span, "no body / back jump found"))
@@ -164,7 +193,7 @@ def regexp_rule(fx, scope, matcher=None):
 def run(fx, ck, OP):
     comp = lambda g: g.file.startswith("src/compiler")
     ck.rule("R9.switch-default-last", "the loop emitting a switch's case tests emits no unconditional jump it does not patch itself (the default clause is reached only after every test failed)", floor=1)
-    for f, header, sp, bad in switch_rule(fx, comp, OP):
+    for f, header, sp, bad in switch_rule(fx, comp, OP, case_adt="ast::SwitchCase"):
         ck.instance("R9.switch-default-last", "%s: case-test loop" % f.path, F.short_span(sp), ok=not bad)
         for b in bad:
             ck.finding("R9.switch-default-last", "R9.switch-default-last/%s" % f.path, F.short_span(b),
@@ -222,6 +251,17 @@ def run(fx, ck, OP):
             ck.finding("R14.regexp-lastindex", "R14.regexp-lastindex/%s" % f.path, F.short_span(sp),
                        "`%s` runs the matcher on its receiver without touching `lastIndex`: a global or sticky regex starts from 0 every time "
                        "(`const re = /a/g; re.test('a'); re.test('a')` gave true, true)" % f.path)
+    # ---- R15 numeric property names (shared with C15 R5): `{ 1e21: v }` and `o[1e21]` name the same property
+    import numfmt
+    ck.rule("R15.numeric-keys", "the compiler never spells a numeric literal (a property name) with Rust's f64::to_string(): only value::number_to_string agrees with the run-time ToString of computed keys", floor=0)
+    numfmt.to_string_rule(fx, ck, lambda g: g.file.startswith("src/compiler"), rule_id="R15.numeric-keys")
+    for g in fx.fns.values():
+        if not g.derived and g.file.startswith("src/compiler/compile_expr.rs"):
+            ck.instance("R15.numeric-keys", g.path, None, nontrivial=False)
+    ckc = type(ck)("C01", "quick", "", [])
+    ckc.rule("R15.numeric-keys", "", floor=0)
+    if numfmt.to_string_rule(F.load_fixture(), ckc, lambda g: g.path.startswith("c15::print"), printer_root="c15::print::number_to_string", rule_id="R15.numeric-keys") != 1 or len(ckc.findings) != 1:
+        ck.closed_fail.append("R15 control failed: the fixture's f64::to_string printer was not reported exactly once")
     # ---- fixture controls
     ctl = F.load_fixture()
     resc, stc = strunits.sites(ctl, lambda g: g.path.startswith("c01units::"))
